@@ -282,6 +282,32 @@ def run(chk):
                         chk.fail(rule, repo.where(m, n), qual, f'module-level `{hit}` mutated in place by {qual}',
                                  f'`{ast.unparse(n)[:70]}` mutates the module-level container `{hit}` in place: every call (and every thread - the server deals while '
                                  f'other code may deal too) works on the same object, so a result taken from it can change under the caller\'s hands')
+        # ---- M5: a result that depends on the iteration order of a set (hash order differs between processes: Enum members and
+        #      strings hash by a per-process random seed, so the table manager and a client process can disagree) ------------------
+        for m, c, fn in repo.all_functions():
+            if m is not mod:
+                continue
+            qual = f'{c.name}.{fn.name}' if c is not None else f'{rel}:{fn.name}'
+            for n in ast.walk(fn):
+                if not isinstance(n, ast.For):
+                    continue
+                it = n.iter
+                is_set = isinstance(it, (ast.Set, ast.SetComp)) or (isinstance(it, ast.Call) and isinstance(it.func, ast.Name) and it.func.id in ('set', 'frozenset'))
+                if not is_set:
+                    continue
+                order_sensitive = None
+                for x in ast.walk(n):
+                    if isinstance(x, (ast.Break, ast.Return)):
+                        order_sensitive = order_sensitive or 'leaves the loop early'
+                    if isinstance(x, ast.Assign) and any(isinstance(t, ast.Subscript) for t in x.targets):
+                        order_sensitive = order_sensitive or f'fills `{ast.unparse(x.targets[0].value)}` in iteration order'
+                    if isinstance(x, ast.Call) and isinstance(x.func, ast.Attribute) and x.func.attr in ('append', 'insert', 'extend', 'setdefault'):
+                        order_sensitive = order_sensitive or f'`{ast.unparse(x)[:40]}` in iteration order'
+                if order_sensitive:
+                    chk.fail(rule, repo.where(m, n), qual, f'iteration over the set `{ast.unparse(it)[:40]}` decides a result',
+                             f'`for {ast.unparse(n.target)} in {ast.unparse(it)[:50]}` {order_sensitive}: the order of a set of seats / names depends on the '
+                             f'process\'s hash seed, so two processes (table manager and a client) or two runs can compute different results (e.g. a different '
+                             f'declarer when both partners named the denomination in the same round)')
         # ---- M3: mutable default arguments mutated in the body ------------------------------------------------------------------
         for m, c, fn in repo.all_functions():
             if m is not mod:
